@@ -254,6 +254,11 @@ type hx struct {
 	err           error
 	returned      bool
 	firedAtReturn int
+	// streamed driver calls that had been entered and not yet returned when Execute returned, and calls entered
+	// after it returned (the statement is over: nothing started for it may still be using the store)
+	inflight         map[string]bool
+	inflightAtReturn []string
+	enteredAfter     []string
 
 	// memoized SELECTs: the same statement executed once more, without faults,
 	// on the same store after the faulted execution returned
@@ -334,6 +339,14 @@ const snapshotCap = 64
 // element by element; out is closed before returning in every mode.
 func stream[T any](h *hx, base, kind string, out chan<- T, call func(chan<- T) error) error {
 	name, mode := h.enter(base, kind)
+	if h.inflight == nil {
+		h.inflight = map[string]bool{}
+	}
+	h.inflight[name] = true
+	defer delete(h.inflight, name)
+	if h.returned && !h.again {
+		h.enteredAfter = append(h.enteredAfter, name)
+	}
 	if mode == "before" {
 		h.log(name, kind, -1)
 		closeThenReturn(out)
@@ -546,6 +559,10 @@ func mkExec(sc *stmt, faults []fault, keep **hx) func() explore.Exec {
 				h.tbl, h.err = pln.Execute(ctx)
 				h.returned = true
 				h.firedAtReturn = len(h.fired)
+				for n := range h.inflight {
+					h.inflightAtReturn = append(h.inflightAtReturn, n)
+				}
+				sort.Strings(h.inflightAtReturn)
 				vrt.MarkReturned()
 				if stm2 != nil {
 					// The driver has recovered: no call fails any more. The memoizing layer
@@ -765,6 +782,11 @@ func (h *hx) check(faults []fault, out *vrt.Outcome) ([]explore.Verdict, string)
 		}
 		vs = append(vs, explore.Verdict{Class: class, Shape: shape,
 			Detail: fmt.Sprintf("%s\nExecute returned %s although %d driver call(s) had returned an error before it returned: %v", h.describe(faults), what, h.firedAtReturn, h.fired[:h.firedAtReturn])})
+	}
+	if len(h.inflightAtReturn) > 0 || len(h.enteredAfter) > 0 {
+		vs = append(vs, explore.Verdict{Class: class, Shape: "driver-calls-outlive-the-statement",
+			Detail: fmt.Sprintf("%s\nfaults fired: %v; Execute returned %s while %d streamed driver call(s) started for it had not returned %v, and %d more were entered afterwards %v", h.describe(faults), h.fired, ret, len(h.inflightAtReturn), h.inflightAtReturn, len(h.enteredAfter), h.enteredAfter)})
+		oc += " outlive"
 	}
 	if h.again && len(h.fired) > 0 {
 		got := "error: " + fmt.Sprint(h.againErr)
